@@ -441,11 +441,11 @@ def huge_case(ctx, scen, i, reopen=True):
 
 
 # ------------------------------------------------------------------ L_io: byte-level I/O traces (Io.v) against the crate
-def io_traces(ctx, n_hist, n_big, n_casc, n_sparse):
+def io_traces(ctx, n_hist, n_big, n_casc, n_sparse, n_reopen=0):
     """every seek/read/write of every call, real crate (fine io-trace hook) vs the byte-level model Io.v, event by event"""
     import scen_io as SI
     rule0 = ctx.rule
-    SI.scen_io(ctx, n_hist, n_big, n_casc, n_sparse)
+    SI.scen_io(ctx, n_hist, n_big, n_casc, n_sparse, n_reopen)
     ctx.rule = rule0 + ' || ' + ctx.rule
 
 # ------------------------------------------------------------------ C01
@@ -833,6 +833,8 @@ def scen_C02(ctx):
         pair(ctx, 'reopen', i, segs, stats=g.stats, files_oracle=True)
     parallel(one, range(ctx.scale(70, 500)))
     parallel(lambda i: huge_case(ctx, 'C02', i), range(ctx.scale(2, 6)), workers=4)
+    # re-opens at byte level: sessions re-opened with other parameters, every I/O event of the open and of the calls after it
+    io_traces(ctx, 0, 0, 0, 0, ctx.scale(24, 200))
 
 
 SCENARIOS['C02'] = scen_C02
@@ -1630,6 +1632,9 @@ def scen_C13(ctx):
     # maps holding a record, and maps that were created and closed without ever being written (header-only files)
     matrix(True)
     matrix(False)
+    # rejected opens at byte level: wrong type / mutated signature byte; the REAL trace of a rejected open must show no write,
+    # no set_len and no seek beyond the end, and must equal the trace of Io.open_existing event by event
+    io_traces(ctx, 0, 0, 0, 0, ctx.scale(30, 240))
 
 
 SCENARIOS['C13'] = scen_C13
